@@ -111,6 +111,12 @@ func (tx *txAddKey) Apply(ring *KeyRing) error {
 	if k != nil {
 		return errTxKeyExists
 	}
+	// The sequence number was chosen from the snapshot taken before the store was locked.
+	// If the key ring has been replaced since (import), a free number is not enough:
+	// sequence numbers must keep increasing, the next one is computed from the last key.
+	if last := len(ring.data.Keys) - 1; last >= 0 && tx.newKey.Seqnum <= ring.data.Keys[last].Seqnum {
+		return errTxConcurrentModification
+	}
 	ring.data.Keys = append(ring.data.Keys, *tx.newKey)
 	return nil
 }
